@@ -20,6 +20,7 @@ import stat as statmod
 
 ROOT = "/simfs"
 FD_BASE = 1_000_000
+_LONGNUM = __import__("re").compile(r"\d{10,}")
 
 FS = None                 # the mounted SimFS (module global, one per process)
 
@@ -40,11 +41,12 @@ class FileNode:
 
 
 class DirNode:
-    __slots__ = ("children", "ino")
+    __slots__ = ("children", "ino", "flock_owner")
 
     def __init__(self):
         self.children = {}
         self.ino = 0
+        self.flock_owner = None
 
     def clone(self, idmap=None):
         d = DirNode()
@@ -173,6 +175,9 @@ class SimFS:
 
     def _log(self, text):
         if self.sim is not None:
+            # thread idents and the like inside file names would make the event log differ between interpreters
+            if any(c.isdigit() for c in text):
+                text = _LONGNUM.sub("<n>", text)
             self.sim.log("fs " + text, quiet=bool(self.sim.in_probe))
 
     def _fault(self, op, path):
